@@ -7,6 +7,11 @@ HERE = os.path.dirname(os.path.dirname(os.path.abspath(__file__)))
 
 # id -> (engine, technique, level text, level note, design ref)
 CHECKS = {
+    "C15": ("XH", "CrossHair symbolic execution of the real filter builder + SqlMethod over symbolic operands/table cells, mini 3VL evaluator of the emitted SQL as DB stub, replay on real sqlite3",
+            "bounded model checking: per condition-tree shape, ALL int operands/cells and all strings up to the length bound are covered by exhausted path trees; "
+            "text-independence, placeholder/parameter agreement and row selection are asserted on every path; counterexamples are replayed on real in-memory sqlite3",
+            "mini evaluator is a model of SQLite for the emitted fragment (cross-checked against sqlite3 on realised values each run); shapes bounded (<= 3 filters)",
+            "DESIGN.md 3/C15"),
     "C12": ("XH", "CrossHair symbolic execution of the real table renderer: width bounds and record limits are symbolic (unbounded) ints, layout structure concrete per shard; "
             "an independent line-by-line checker of the printed text is the oracle",
             "bounded model checking: per (column kinds, record set, header/footer) shard, every path of the real renderer over ALL maximum widths and ALL record limits is explored "
